@@ -161,6 +161,9 @@ def case_from_replay(doc: dict) -> dict:
         "options": doc["options"],
         "histories": doc["histories"],
         "params": doc.get("params", {}),
+        # the histories of a replay file are complete (planned fault/crash histories included): a replay must run exactly
+        # them and not plan new ones from the (possibly minimised) package
+        "planned": True,
     }
 
 
